@@ -386,8 +386,9 @@ def w5_siblings(run: Run, prog: Program, cy=None):
                   and c.func.id.startswith("_randomly_rewire_geomodel")]
         if len(kcalls) != 1:
             raise AnalysisError(f"{m.where}: kernel call not found in {name}")
-        kf = cy.func(CORE, kcalls[0].func.id) if cy is not None else None
-        pnames = [n for n, t in kf.args] if kf is not None else []
+        # labels: the roles of the kernel parameters by position (the call is
+        # positional): (iterations, eps, A, D, E, edges[, degree])
+        pnames = ["iterations", "eps", "A", "D", "E", "edges", "degree"]
         for k, a_ in enumerate(kcalls[0].args):
             label = pnames[k] if k < len(pnames) else f"arg{k}"
             d[label] = ast.unparse(strip_int(inline_locals(m.node, a_)))
